@@ -154,6 +154,15 @@ def run(prog, tier, res):
 
     ok_sites = an.ok_sites()
     if not ok_sites:
+        # `PwbV2Packet::try_from(&payload[..]).map_err(Self::Error::BadPayload)` as the tail expression: the decoder's
+        # result is passed through (`Ok(x?)` in one call); the accept site is where that value is produced
+        for bb_, t_ in an.ret_assignments():
+            x_ = strip(t_)
+            if x_[0] == "call" and short(x_[1]) == "Result::<T, E>::map_err" and x_[2]:
+                inner_ = strip(x_[2][0])
+                if inner_[0] == "call" and inner_[1] == FN_SLICE:
+                    ok_sites.append((bb_, ("aggr", "adt:std::result::Result::Ok", (("try", x_[2][0]),))))
+    if not ok_sites:
         raise AnchorMissing("no Ok(..) return in %s" % FN)
 
     # ---------------------------------------------------------------- find the sort
